@@ -244,3 +244,59 @@ func init() {
 		return nil
 	}
 }
+
+// sync.Pool: a LIFO free list per pool (cleared at the start of every path). Get returns the most
+// recently Put object if there is one - the schedule in which a recycled object is handed out
+// again at once, which is the one that shows an object being reused while still referenced - and
+// calls New otherwise. Put is a synchronised write for the C19 monitor.
+func (in *Interp) poolOf(v Value) *[]Value {
+	p, ok := v.(*Ptr)
+	if !ok || p.P == nil {
+		goPanic("nil pointer dereference (*sync.Pool)")
+	}
+	if in.syncPools == nil {
+		in.syncPools = map[*Value]*[]Value{}
+	}
+	l := in.syncPools[p.P]
+	if l == nil {
+		l = &[]Value{}
+		in.syncPools[p.P] = l
+	}
+	return l
+}
+
+func init() {
+	nativeTable["(*sync.Pool).Get"] = func(in *Interp, fn *ssa.Function, args []Value) Value {
+		l := in.poolOf(args[0])
+		if n := len(*l); n > 0 {
+			x := (*l)[n-1]
+			*l = (*l)[:n-1]
+			return x
+		}
+		p := args[0].(*Ptr)
+		st, ok := (*p.P).(Struct)
+		if !ok {
+			unsup("sync.Pool value is not a struct")
+		}
+		pt := fn.Signature.Recv().Type().(*types.Pointer).Elem().Underlying().(*types.Struct)
+		for i := 0; i < pt.NumFields(); i++ {
+			if pt.Field(i).Name() == "New" {
+				if cl, ok := st[i].(*Closure); ok && (cl.Fn != nil || cl.Builtin != nil) {
+					return in.callValue(cl, nil)
+				}
+				return Iface{}
+			}
+		}
+		unsup("sync.Pool without a New field")
+		return nil
+	}
+	nativeTable["(*sync.Pool).Put"] = func(in *Interp, fn *ssa.Function, args []Value) Value {
+		l := in.poolOf(args[0])
+		if x, ok := args[1].(Iface); ok && x.T == nil && x.V == nil {
+			return nil
+		}
+		in.syncMapWrite(args[0], "sync.Pool.Put")
+		*l = append(*l, args[1])
+		return nil
+	}
+}
